@@ -1072,6 +1072,9 @@ func c14PickItems(r *rand.Rand, strs []string, n int, source string) []string {
 	if source == "cont" {
 		pool = append(append([]string{}, strs...), "A", "Zz", "ZZ", "G")
 	}
+	for j := len(pool); j < n; j++ {
+		pool = append(append([]string{}, pool...), fmt.Sprintf("w%d", j)) // lists longer than the pool (two-digit indices)
+	}
 	perm := r.Perm(len(pool))
 	var out []string
 	for j := 0; j < n && j < len(perm); j++ {
@@ -1110,7 +1113,7 @@ func c14Run(c *Ctx) {
 			Ext: r.Intn(2) == 0, Log: r.Intn(4) > 0, Child: r.Intn(2) == 0}
 		n := r.Intn(5)
 		if r.Intn(8) == 0 {
-			n = pick(r, []int{5, 6, 7, 9}) // lists whose backing array has / has no spare capacity when the body appends
+			n = pick(r, []int{5, 6, 7, 9, 10, 11, 12}) // lists whose backing array has / has no spare capacity when the body appends; two-digit indices
 		}
 		p.Items = c14PickItems(r, strs, n, p.Source)
 		for j := 0; j < n; j++ {
@@ -1137,7 +1140,7 @@ func c14Run(c *Ctx) {
 			}
 		}
 		if r.Intn(3) > 0 {
-			p.Var = sp(pick(r, []string{"it", "item", "v_1", "forEach", "X"}))
+			p.Var = sp(pick(r, []string{"it", "item", "v_1", "forEach", "X", "Keep", "OTHER", "xS"})) // incl. letter-case twins of keys the data holds
 		}
 		switch p.Source {
 		case "clist":
